@@ -31,7 +31,13 @@ pub enum R {
     /// entry is an affine remap whose inverse is representable (else by a unit
     /// translation): two consecutive remaps that cancel exactly
     UndoAffine { t: u16 },
+    /// remap_xyz onto a permutation of the bare axes (0..6); two of these in
+    /// a row can compose to the identity map
+    #[serde(alias = "PermXyz")]
+    PermXyz { t: u16, perm: u8 },
 }
+
+const PERMS3: [[usize; 3]; 6] = [[0, 1, 2], [0, 2, 1], [1, 0, 2], [1, 2, 0], [2, 0, 1], [2, 1, 0]];
 
 /// Rewrites `UndoAffine` entries into plain affine remaps
 fn normalize(nodes: &[R]) -> Vec<R> {
@@ -105,6 +111,11 @@ fn build(nodes: &[R]) -> Vec<Tree> {
             ),
             R::RemapAffine { t, m } => out[sel(*t, i)].remap_affine(affine(m)),
             R::UndoAffine { .. } => unreachable!("normalize() removes these"),
+            R::PermXyz { t, perm } => {
+                let ax = |k: usize| [Tree::x(), Tree::y(), Tree::z()][k].clone();
+                let q = PERMS3[*perm as usize % 6];
+                out[sel(*t, i)].remap_xyz(ax(q[0]), ax(q[1]), ax(q[2]))
+            }
         };
         out.push(t);
     }
@@ -203,6 +214,10 @@ fn eval(nodes: &[R], i: usize, p: [f64; 3], vars: &[f64; 3], ex: &mut Exact, dep
             eval(nodes, sel(*t, i), q, vars, ex, depth + 1)
         }
         R::UndoAffine { .. } => unreachable!("normalize() removes these"),
+        R::PermXyz { t, perm } => {
+            let q = PERMS3[*perm as usize % 6];
+            eval(nodes, sel(*t, i), [p[q[0]], p[q[1]], p[q[2]]], vars, ex, depth + 1)
+        }
     };
     ex.see(v)
 }
@@ -218,7 +233,7 @@ fn cost(nodes: &[R]) -> Vec<f64> {
             R::RemapXyz { t, x, y, z } => {
                 1.0 + c[sel(*t, i)] + c[sel(*x, i)] + c[sel(*y, i)] + c[sel(*z, i)]
             }
-            R::RemapAffine { t, .. } => 1.0 + c[sel(*t, i)],
+            R::RemapAffine { t, .. } | R::PermXyz { t, .. } => 1.0 + c[sel(*t, i)],
             _ => 1.0,
         };
         c.push(v);
@@ -231,7 +246,11 @@ fn matrix_strategy() -> BoxedStrategy<Vec<i8>> {
     // reflections, non-uniform scales) optionally with one shear entry
     (
         0usize..6,
-        vec(prop_oneof![Just(4i8), Just(-4), Just(2), Just(-2), Just(8), Just(-8)], 3..=3),
+        prop_oneof![
+            4 => vec(prop_oneof![Just(4i8), Just(-4), Just(2), Just(-2), Just(8), Just(-8)], 3..=3),
+            // a pure 0/1 permutation matrix (with zero translation below)
+            1 => Just(vec![4i8, 4, 4]),
+        ],
         prop_oneof![3 => Just(None), 2 => (0usize..3, 0usize..3, prop_oneof![Just(2i8), Just(-2), Just(4), Just(-4)]).prop_map(Some)],
         vec(-8i8..=8, 3..=3),
     )
@@ -239,9 +258,10 @@ fn matrix_strategy() -> BoxedStrategy<Vec<i8>> {
             const PERMS: [[usize; 3]; 6] =
                 [[0, 1, 2], [0, 2, 1], [1, 0, 2], [1, 2, 0], [2, 0, 1], [2, 1, 0]];
             let mut m = vec![0i8; 12];
+            let pure = scale == [4, 4, 4] && shear.is_none();
             for r in 0..3 {
                 m[r * 4 + PERMS[perm][r]] = scale[r];
-                m[r * 4 + 3] = tr[r];
+                m[r * 4 + 3] = if pure && tr[0] % 2 == 0 { 0 } else { tr[r] };
             }
             if let Some((r, c, v)) = shear {
                 if m[r * 4 + c] == 0 {
@@ -278,6 +298,7 @@ impl Prop for P {
                 4 => (s(), matrix_strategy()).prop_map(|(t, m)| R::RemapAffine { t, m }),
                 // most often aimed at the newest entry (selector 0xffff)
                 1 => prop_oneof![3 => Just(u16::MAX), 1 => s()].prop_map(|t| R::UndoAffine { t }),
+                2 => (prop_oneof![3 => Just(u16::MAX), 1 => s()], 0u8..6).prop_map(|(t, perm)| R::PermXyz { t, perm }),
             ]
         };
         let max = tier.pick(24, 40);
@@ -301,6 +322,16 @@ impl Prop for P {
                 if let (R::RemapAffine { m, .. }, R::RemapAffine { m: inv, .. }) = (&nodes[sel(*t, i)], &nodes[i]) {
                     if mat4(m) * mat4(inv) == Matrix4::identity() && mat4(m) != Matrix4::identity() {
                         cx.ev.count("exactly_cancelling_affine_pairs");
+                    }
+                }
+            }
+        }
+        for (i, n) in nodes.iter().enumerate() {
+            if let (R::PermXyz { t, perm }, true) = (n, i > 0) {
+                if let R::PermXyz { perm: q, .. } = &nodes[sel(*t, i)] {
+                    let (a, b) = (PERMS3[*perm as usize % 6], PERMS3[*q as usize % 6]);
+                    if (0..3).all(|k| a[b[k]] == k) && a != [0, 1, 2] {
+                        cx.ev.count("axis_permutation_pairs_composing_to_identity");
                     }
                 }
             }
